@@ -32,7 +32,7 @@ func verifTypeExprString(e ast.Expr) string {
 // the user's package), each provider Async/fallible by choice, requirements any
 // subset of {other T's, unsupplied A0, unsupplied A1, context.Context}; the
 // signature of the generated declaration must follow the reference rule.
-func verifHarnessBuild(np int) {
+func verifHarnessBuild(np int, nx int) {
 	user := types.NewPackage("example.com/u", "u")
 	ctxPkg := types.NewPackage("context", "context")
 	ctxT := types.NewNamed(types.NewTypeName(token.NoPos, ctxPkg, "Context", nil), types.NewInterfaceType(nil, nil), nil)
@@ -41,8 +41,8 @@ func verifHarnessBuild(np int) {
 	for i := range ts {
 		ts[i] = verifNamed(user, names[i], true)
 	}
-	extra := []types.Type{verifNamed(user, "A0", true), verifNamed(user, "A1", true), ctxT}
-	extraName := []string{"*A0", "*A1", "context.Context"}
+	extra := []types.Type{ctxT, verifNamed(user, "A0", true), verifNamed(user, "A1", true)}[:nx]
+	extraName := []string{"context.Context", "*A0", "*A1"}[:nx]
 	type prov struct {
 		async, fallible bool
 		reqT            []int // indices of T's
